@@ -2,6 +2,7 @@ import TsVerif.C16.Lemmas
 import TsVerif.C16.NodeTypesLemmas
 import TsVerif.C16.Names
 import TsVerif.C16.DeriveLemmas
+import TsVerif.C16.Collapse
 /-!
 # C16 — node-types.json, symbol tables and look-ahead sets are sound for every tree
 
@@ -198,6 +199,26 @@ theorem derive_entry_fields_partial (G : Grammar) (I : Info) (hcl : Closed G I) 
     · simp only [decide_eq_false_iff_not] at hmul
       simp only [countField_kidVT]
       have := a3 f (by omega); omega
+
+/-- `collapse_preserves_admitted`: the supertype-collapsing step of `generate_node_types`
+(`process_supertypes`: when a `types` list contains a supertype, that supertype's subtypes are removed
+from it, pair by pair) does not change the set of node types the list admits through `subtypes` —
+for every file whose entries contain the pairs and in which no supertype is its own subtype. -/
+theorem collapse_preserves_admitted (nt : NodeTypes) (subMap : List (TypeRef × List TypeRef))
+    (h : ∀ pair ∈ subMap, (∃ e ∈ nt, e.ty = pair.1 ∧ e.subtypes = some pair.2) ∧ pair.1 ∉ pair.2)
+    (types : List TypeRef) (t : TypeRef) : Reach nt (collapse subMap types) t ↔ Reach nt types t :=
+  collapse_reach_iff subMap h types t
+
+/-- non-vacuity, and the shape of seeded change C16-r5: `_expression` with the named subtype `string`; the
+list also holds the ANONYMOUS literal "string".  Collapsing keeps the literal; a collapse that compares
+kinds only (ignoring `named`) would drop it, and the anonymous node would no longer be admitted. -/
+def supNT : NodeTypes :=
+  [ { ty := ⟨"_expression", true⟩, fields := [], children := none, subtypes := some [⟨"string", true⟩, ⟨"ident", true⟩] } ]
+example : collapse [(⟨"_expression", true⟩, [⟨"string", true⟩, ⟨"ident", true⟩])]
+    [⟨"_expression", true⟩, ⟨"string", true⟩, ⟨"string", false⟩] = [⟨"_expression", true⟩, ⟨"string", false⟩] := by decide
+example : allowed supNT ⟨true, false, [⟨"_expression", true⟩, ⟨"string", false⟩]⟩ ⟨"string", false⟩ = true := by decide
+example : allowed supNT ⟨true, false, [⟨"_expression", true⟩, ⟨"string", false⟩]⟩ ⟨"string", true⟩ = true := by decide
+example : allowed supNT ⟨true, false, [⟨"_expression", true⟩]⟩ ⟨"string", false⟩ = false := by decide
 
 /-! ## names -/
 
